@@ -12,7 +12,7 @@ import (
 func init() {
 	register("C16", []string{".", "./internal/manifest"}, runC16)
 	propTechnique["C16"] = "SSA must-facts dataflow over the compaction pickers (every set of input tables passes the not-already-compacting vetting before a pick is returned), value-keyed guard facts, loop-examines-all on the vetting function"
-	propExplain["C16"] = "Decides one clause of C16 — 'a pick never includes a file that is already compacting' — as far as it is visible in the shape of the pickers; sublevel construction, its incremental/from-scratch agreement and the level invariant after an L0 compaction are value-level and are not decided. (P1) every function of package pebble that fills a picked compaction's input tables (a store to compactionLevel.files, or a call of a constructor that does so) returns that compaction only through the true edge of setupInputs on the same path; (P2) setupInputs returns true only after canCompactTables accepted the input level's tables and, if it replaced the output level's tables, those too; maybeGrow replaces a level's tables only with a slice canCompactTables accepted; the L0 organizer's rectangle extension adds a table to a candidate only on the not-compacting edge of that same table; (P3) canCompactTables rejects the slice for any element whose IsCompacting() is true and examines every element. Together: no table marked compacting survives into a returned pick on these paths. Not covered: the multi-level heuristic's extra level (vetted by the same setupInputs, reached through an interface), and picks that never go through pickedTableCompaction (blob-file rewrites)."
+	propExplain["C16"] = "Decides one clause of C16 — 'a pick never includes a file that is already compacting' — as far as it is visible in the shape of the pickers; sublevel construction, its incremental/from-scratch agreement and the level invariant after an L0 compaction are value-level and are not decided. (P1) every function of package pebble that fills a picked compaction's input tables (a store to compactionLevel.files, or a call of a constructor that does so) returns that compaction only through the true edge of setupInputs on the same path; (P2) setupInputs returns true only after canCompactTables accepted the input level's tables and, if it replaced the output level's tables, those too; maybeGrow replaces a level's tables only with a slice canCompactTables accepted; the L0 organizer's rectangle extension adds a table to a candidate only on the not-compacting edge of that same table; (P3) canCompactTables rejects the slice for any element whose IsCompacting() is true and examines every element. (P4) in the L0 organizer's candidate builders every addFile(f) is on the not-compacting edge of that same f, or f is the seed parameter and every caller vetted it that way. Together: no table marked compacting survives into a returned pick on these paths. Not covered: the multi-level heuristic's extra level (vetted by the same setupInputs, reached through an interface), and picks that never go through pickedTableCompaction (blob-file rewrites)."
 }
 
 func runC16(c *Ctx) {
@@ -299,6 +299,117 @@ func runC16(c *Ctx) {
 		}
 		if n == 0 {
 			c.Unresolved("C16.P2", "no addFile call in extendCandidateToRectangle")
+		}
+	}
+
+	// ---- C16.P4: the L0 candidate builders themselves (added after seed C16-a) ----
+	// Every addFile(f, …) in internal/manifest's L0 pickers is reached only on the not-compacting
+	// edge of that same f, or f is the function's seed parameter and every caller passes a table
+	// it vetted in the same way (directly, or as the result of a function literal all of whose
+	// non-nil returns are on that edge).
+	{
+		addFile := Pred("addFile", func(in ssa.Instruction) bool {
+			cc := getCallCommon(in)
+			return cc != nil && infoOfCommon(cc).Short == "addFile" && len(cc.Args) >= 2
+		})
+		notCompactingEdge := func(f ssa.Value) CondM {
+			return func(v ssa.Value) (bool, bool) {
+				call, ok := v.(*ssa.Call)
+				if !ok || infoOfCommon(call.Common()).Short != "IsCompacting" || len(call.Common().Args) == 0 {
+					return false, false
+				}
+				return call.Common().Args[0] == f, true
+			}
+		}
+		vettedAt := func(fn *ssa.Function, at ssa.Instruction, f ssa.Value) bool {
+			fl := NewFlow(c.P).Edge("table-not-compacting", notCompactingEdge(f))
+			fl.MaxDepth = 0
+			res := fl.Analyze(fn, emptyState())
+			c.noteFlow(fl)
+			return res.stateBefore(at).has("table-not-compacting")
+		}
+		// a function literal whose every non-nil return value is vetted
+		closureReturnsVetted := func(clo *ssa.Function) bool {
+			n, good := 0, true
+			for _, b := range clo.Blocks {
+				for _, in := range b.Instrs {
+					ret, ok := in.(*ssa.Return)
+					if !ok || len(ret.Results) != 1 {
+						continue
+					}
+					if k, isK := ret.Results[0].(*ssa.Const); isK && k.Value == nil {
+						continue
+					}
+					n++
+					if !vettedAt(clo, ret, ret.Results[0]) {
+						good = false
+					}
+				}
+			}
+			return n > 0 && good
+		}
+		var argVetted func(fn *ssa.Function, call *ssa.Call, a ssa.Value) bool
+		argVetted = func(fn *ssa.Function, call *ssa.Call, a ssa.Value) bool {
+			if vettedAt(fn, call, a) {
+				return true
+			}
+			if c2, ok := a.(*ssa.Call); ok {
+				if mc, ok := c2.Common().Value.(*ssa.MakeClosure); ok {
+					return closureReturnsVetted(mc.Fn.(*ssa.Function))
+				}
+			}
+			return false
+		}
+		manPath := pkgAlias["man"]
+		nP4 := 0
+		for _, fn := range pkgFuncs(c, manPath) {
+			recvOK := fn.Signature.Recv() != nil && strings.Contains(fn.Signature.Recv().Type().String(), "l0Sublevels")
+			if !recvOK || fn.Parent() != nil {
+				continue
+			}
+			for _, in := range instrs(fn, addFile) {
+				f := getCallCommon(in).Args[1]
+				nP4++
+				ok := vettedAt(fn, in, f)
+				why := ""
+				if !ok {
+					if prm, isP := f.(*ssa.Parameter); isP {
+						// the seed parameter: every caller must pass a vetted table
+						idx := -1
+						for i, fp := range fn.Params {
+							if fp == prm {
+								idx = i
+							}
+						}
+						callers, allOK := 0, true
+						for _, g := range pkgFuncs(c, manPath) {
+							for _, b := range g.Blocks {
+								for _, gi := range b.Instrs {
+									call, isCall := gi.(*ssa.Call)
+									if !isCall || call.Common().StaticCallee() != fn || idx < 0 || idx >= len(call.Common().Args) {
+										continue
+									}
+									callers++
+									if !argVetted(g, call, call.Common().Args[idx]) {
+										allOK = false
+										why = "the seed table passed by " + QName(g) + " is not on the not-compacting edge of that table"
+									}
+								}
+							}
+						}
+						ok = callers > 0 && allOK
+						if callers == 0 {
+							why = "no caller found for the seed parameter"
+						}
+					} else {
+						why = "this table is added to the candidate without its IsCompacting() having been tested on this path"
+					}
+				}
+				c.Ob("C16.P4", fn, "a table joins an L0 candidate only after that table was found not compacting", c.P.Pos(in.Pos()), ok, why)
+			}
+		}
+		if nP4 < 5 {
+			c.Unresolved("C16.P4", fmt.Sprintf("only %d addFile sites found in the L0 pickers (expected at least 5)", nP4))
 		}
 	}
 
